@@ -727,6 +727,56 @@ class Gen:
             for k in (1, 2, 3):
                 yield f"name_mapping.{key}:{k}", self.name_mapping_form(key, k)
 
+    # -- one type, configured at ONE of its locations only -----------------------------------------------------------------
+    def location_forms(self):
+        """(label, inner type, enclosing type, specification): a provider scoped to the location `Enclosing.field`, so the
+        SAME type is morphed differently at that location and everywhere else (bare, inside other containers).  Whatever
+        the retort memoises per type, per shape or per layout must keep the two apart."""
+        rng = self.rng
+
+        def loc(model, fld, inner):
+            return rng.choice([["Pf", model, fld], ["Pf", model, fld], ["s", fld], ["Pa", fld],
+                               ["and", ["t", inner], ["Pf", model, fld]]])
+        nm = lambda **kw: {"f": "name_mapping", "preds": [loc("Box", "item", "Item")], **kw}  # noqa: E731
+        for label, kw in (("omit_default", {"omit_default": True}),
+                          ("omit_default-pred", {"omit_default": [["s", "n"]], "omit_default_list": rng.random() < 0.5}),
+                          ("skip", {"skip": [["s", "n"]], "skip_list": True}),
+                          ("only", {"only": [["s", "color"], ["s", "size"]], "only_list": True}),
+                          ("map", {"map": {"n": "count", "color": "colour"}}),
+                          ("style", {"style": rng.choice(["UPPER", "PASCAL"])}),
+                          ("as_list", {"as_list": True}),
+                          ("extra_in", {"extra_in": "forbid"})):
+            yield f"name_mapping.{label}", "Item", "Box", nm(**kw)
+        yield "enum_by_name", "Color", "Item", {"f": "enum_by_name", "preds": [loc("Item", "color", "Color")], "style": None, "map": None}
+        yield "enum_by_name", "Size", "Item", {"f": "enum_by_name", "preds": [loc("Item", "size", "Size")], "style": "LOWER", "map": None}
+        yield "enum_by_value", "Level", "Box", {"f": "enum_by_value", "preds": [loc("Box", "level_", "Level")], "tp": "str"}
+        yield "flag_by_member_names", "Perm", "Box", {"f": "flag_by_member_names", "preds": [loc("Box", "perm", "Perm")]}
+        yield "loader", "int", "Item", {"f": "loader", "preds": [loc("Item", "n", "int")], "fn": "f0", "chain": None}
+        yield "dumper", "int", "Item", {"f": "dumper", "preds": [loc("Item", "n", "int")], "fn": "f2", "chain": None}
+        yield "datetime_by_timestamp", "datetime", "Ev", {"f": "datetime_by_timestamp", "preds": [loc("Ev", "at", "datetime")], "tz": True}
+        yield "date_by_timestamp", "date", "Ev", {"f": "date_by_timestamp", "preds": [loc("Ev", "on", "date")]}
+        yield "default_dict", "DDict", "Ev", {"f": "default_dict", "preds": [loc("Ev", "counts", "DDict")], "fn": "seven"}
+
+    def location_cases(self):
+        """For every form of `location_forms` the histories: everything about the inner type, then everything about the
+        enclosing type; the other way round; and a get_loader / get_dumper of one of them before both.  A model enclosing
+        the enclosing type (Box for Item.color) is swept too.  Every call is compared with a never-used retort."""
+        rng = self.rng
+        for label, inner, outer, spec in self.location_forms():
+            cfg = {"strict": rng.random() < 0.75, "trail": "ALL", "recipe": [spec]}
+            outers = [outer] + (["Box"] if outer == "Item" else [])
+            for order in ("inner-first", "outer-first", "getter-first"):
+                if order == "inner-first":
+                    types, head = [inner] + outers, []
+                elif order == "outer-first":
+                    types, head = outers[::-1] + [inner], []
+                else:
+                    types = rng.sample([inner] + outers, len(outers) + 1)
+                    head = [{"op": "call", "i": 0, "c": {"k": rng.choice(["get_loader", "get_dumper"]), "t": t}}
+                            for t in rng.sample([inner, outer], 2)]
+                yield {"suite": "recipe-state", "world": "morph", "cfg": cfg, "history": head + self.sweep(types, 0, per=99),
+                       "gen": f"location:{label}:{order}"}
+
     LEAF_CHANGERS = [
         {"f": "loader", "preds": [["t", "int"]], "fn": "f0", "chain": None}, {"f": "loader", "preds": [["t", "str"]], "fn": "f1", "chain": None},
         {"f": "dumper", "preds": [["t", "int"]], "fn": "f2", "chain": None}, {"f": "enum_by_name", "preds": [], "style": None, "map": None},
@@ -936,6 +986,10 @@ def recipe_state_suite(ctx: Ctx, n_random: int, per_form: int = 1, stop_on_failu
         for case in gen.directed_cases(per_form):
             if runner.check(ctx, case) and stop_on_failure:
                 return
+        for _ in range(per_form):
+            for case in gen.location_cases():
+                if runner.check(ctx, case) and stop_on_failure:
+                    return
         for _ in range(n_random):
             if runner.check(ctx, gen.random_case()) and stop_on_failure:
                 return
